@@ -81,7 +81,17 @@ def main(argv=None):
         print(json.dumps(d, indent=1, sort_keys=True))
         print("re-running the check of property %s on %s" %
               (d["property"], d.get("repo", "/repo")))
-        return run_check(d["property"], "quick", 0, d.get("repo", "/repo"))
+        # a replay never rewrites the evidence of the registered commands
+        import tempfile
+        import shutil
+        from . import context
+        tmp = tempfile.mkdtemp(prefix="gfaverif_explain_")
+        context.EVIDENCE_DIR = tmp
+        try:
+            return run_check(d["property"], "quick", 0,
+                             d.get("repo", "/repo"))
+        finally:
+            shutil.rmtree(tmp, ignore_errors=True)
     tier = args.tier or os.environ.get("VERIF_TIER") or "quick"
     if tier not in ("quick", "thorough"):
         tier = "quick"
